@@ -31,6 +31,10 @@ impl<C: Config, Q: Query> Snapshot<C, Q> {
             self.engine().get_backward_edges_unchecked(self.query_id()).await
         };
 
+        #[cfg(feature = "verif_hooks")]
+        crate::engine::verif::yield_point("backward_projection::after_edges")
+            .await;
+
         let mut backward_projections = Vec::new();
         for query_id in backward_edges {
             let query_kind = self.engine().get_query_kind(&query_id).await;
